@@ -326,6 +326,32 @@ class TrackedArray(np.ndarray):
         self._dirty_hash = True
         return super(self.__class__, self).__setslice__(*args, **kwargs)
 
+    def resize(self, *args, **kwargs):
+        self._dirty_hash = True
+        return super(self.__class__, self).resize(*args, **kwargs)
+
+    def __setstate__(self, *args, **kwargs):
+        self._dirty_hash = True
+        return super(self.__class__, self).__setstate__(*args, **kwargs)
+
+
+def _dirty_setter(name):
+    """
+    Wrap an attribute of `numpy.ndarray` which can be assigned
+    (`a.real = 0.0`) so the assignment marks the hash as dirty.
+    """
+    descriptor = getattr(np.ndarray, name)
+
+    def setter(self, value):
+        self._dirty_hash = True
+        descriptor.__set__(self, value)
+
+    return property(descriptor.__get__, setter, doc=descriptor.__doc__)
+
+
+for _name in ("real", "imag", "strides"):
+    setattr(TrackedArray, _name, _dirty_setter(_name))
+
 
 class Cache:
     """
